@@ -368,5 +368,8 @@ pub fn run(tier: Tier) -> i32 {
     rep.stats.sample(json!({"position":"mapping entries","entries":["f: a*","g: x","n: {x: a}"],"orders":6}));
     rep.rule = "commutative positions of 2-4 operands: list members (mixed kinds: strings of every batching kind, case-insensitive strings, regexes, numbers, comparisons, booleans, nested mappings) under k / all(k) / of(k,n) / str(k); rows of a sequence; entries of a mapping; operands of or / and chains in the condition - every combination over the member / entry pools x ALL permutations x the full document product, as loaded and after default optimisation. Oracle: whether the permuted node is true is the same in every order (and every order loads iff the written one does). non-trivial = the position is true on some document and not on another".into();
     rep.assumptions = vec![];
+    // wide or-groups (64..300, 2048 distinct fields) with their rows in written and in reversed order:
+    // both must give the verdict known by construction, as loaded and optimised
+    rep.stats.merge(crate::wide::run(tier.thorough(), false));
     rep.finish()
 }
